@@ -194,7 +194,7 @@ func execC06(w *c06W, x *Exec) *Outcome {
 		var srv *simServer
 		var err error
 		s.Passive(func() {
-			srv, err = newSimServer(x.WorkDir, simkv.NewDisk(), true)
+			srv, err = newSimServer(cleanDir(x.WorkDir+"/srv"), simkv.NewDisk(), true)
 			if err != nil {
 				return
 			}
